@@ -72,46 +72,65 @@ impl Config {
     pub fn is_fifo_read_disabled(&self) -> bool {
         self.fifo_config.is_read_disabled()
     }
+    // Every value is recorded once the device has acknowledged it, so that the
+    // configuration stays truthful if the self test is aborted by a bus error
     pub fn setup_self_test<Interface, InterfaceError, PinError>(
-        &self,
+        &mut self,
         interface: &mut Interface,
     ) -> Result<(), BMA400Error<InterfaceError, PinError>>
     where
         Interface: WriteToRegister<Error = BMA400Error<InterfaceError, PinError>>,
     {
         // Disable Interrupts
-        interface.write_register(IntConfig0::from_bits_truncate(0x00))?;
-        interface.write_register(IntConfig1::from_bits_truncate(0x00))?;
-        interface.write_register(self.auto_wkup_config.get_config1().with_wakeup_int(false))?;
+        let int_config0 = IntConfig0::from_bits_truncate(0x00);
+        interface.write_register(int_config0)?;
+        self.int_config.set_config0(int_config0);
+        let int_config1 = IntConfig1::from_bits_truncate(0x00);
+        interface.write_register(int_config1)?;
+        self.int_config.set_config1(int_config1);
+        let auto_wakeup1 = self.auto_wkup_config.get_config1().with_wakeup_int(false);
+        interface.write_register(auto_wakeup1)?;
+        self.auto_wkup_config.set_config1(auto_wakeup1);
         // Disable FIFO
-        interface.write_register(
-            self.fifo_config.get_config0().with_fifo_x(false).with_fifo_y(false).with_fifo_z(false),
-        )?;
+        let fifo_config0 =
+            self.fifo_config.get_config0().with_fifo_x(false).with_fifo_y(false).with_fifo_z(false);
+        interface.write_register(fifo_config0)?;
+        self.fifo_config.set_config0(fifo_config0);
 
         // Set PowerMode = Normal
-        interface.write_register(
-            self.acc_config.get_config0().with_power_mode(crate::PowerMode::Normal),
-        )?;
+        let acc_config0 = self.acc_config.get_config0().with_power_mode(crate::PowerMode::Normal);
+        interface.write_register(acc_config0)?;
+        self.acc_config.set_config0(acc_config0);
         // Set Range = 4G, OSR = OSR3, ODR = 100Hz
-        interface.write_register(AccConfig1::from_bits_truncate(0x78))?;
+        let acc_config1 = AccConfig1::from_bits_truncate(0x78);
+        interface.write_register(acc_config1)?;
+        self.acc_config.set_config1(acc_config1);
         Ok(())
     }
+    // Restores the registers changed by setup_self_test() from the configuration saved before it
     pub fn cleanup_self_test<Interface, InterfaceError, PinError>(
-        &self,
+        &mut self,
+        saved: &Config,
         interface: &mut Interface,
     ) -> Result<(), BMA400Error<InterfaceError, PinError>>
     where
         Interface: WriteToRegister<Error = BMA400Error<InterfaceError, PinError>>,
     {
         // Restore AccConfig
-        interface.write_register(self.acc_config.get_config0())?;
-        interface.write_register(self.acc_config.get_config1())?;
+        interface.write_register(saved.acc_config.get_config0())?;
+        self.acc_config.set_config0(saved.acc_config.get_config0());
+        interface.write_register(saved.acc_config.get_config1())?;
+        self.acc_config.set_config1(saved.acc_config.get_config1());
         // Restore IntConfig
-        interface.write_register(self.int_config.get_config0())?;
-        interface.write_register(self.int_config.get_config1())?;
-        interface.write_register(self.auto_wkup_config.get_config1())?;
+        interface.write_register(saved.int_config.get_config0())?;
+        self.int_config.set_config0(saved.int_config.get_config0());
+        interface.write_register(saved.int_config.get_config1())?;
+        self.int_config.set_config1(saved.int_config.get_config1());
+        interface.write_register(saved.auto_wkup_config.get_config1())?;
+        self.auto_wkup_config.set_config1(saved.auto_wkup_config.get_config1());
         // Restore FifoConfig
-        interface.write_register(self.fifo_config.get_config0())?;
+        interface.write_register(saved.fifo_config.get_config0())?;
+        self.fifo_config.set_config0(saved.fifo_config.get_config0());
         Ok(())
     }
 }
